@@ -193,7 +193,7 @@ def declare_horizon(b):
     for key, setter in (("t0", st.set_t0), ("T", st.set_T)):
         h = sp[key]
         if h["kind"] in ("param", "var"):
-            setter(b.syms[h["name"]])
+            setter(b.syms[h["name"]] if h.get("factor") is None else h["factor"] * b.syms[h["name"]])
 
 
 def declare_model(b):
